@@ -12,7 +12,7 @@ import numpy
 
 from cv import consts, fillspec, sched
 from cv.core import MachineryError
-from cv.e2e import Workdir, free_dataset, oracle_case, system_dataset
+from cv.e2e import Workdir, free_dataset, full_modulus_of, oracle_case, phonon_parts, system_dataset
 from cv.phonon_expect import PhononExpectation, scenario_of
 from cv.synth import KEYS21, run
 from cv.thermo_oracle import ThermoOracle
@@ -152,7 +152,7 @@ def oracle_for(ctx, shape):
 def check_case(ctx, ds, calc, desc, insts):
     from cij.util import c_
     sig = {"kind": desc["kind"], "system": ds.system}
-    fm = calc._full_modulus
+    fm = full_modulus_of(calc)
     strains = numpy.asarray(fm.get_axial_strains(), dtype=float)
     v = numpy.asarray(calc.v_array)
     # (i) strain fractions: equal thirds without lattice block; normalised log-derivatives of the axis lengths otherwise
@@ -223,10 +223,10 @@ def check_case(ctx, ds, calc, desc, insts):
 OBS = {
     "v_array": lambda c: c.v_array, "t_array": lambda c: c.t_array,
     "freq_array": lambda c: c.freq_array, "mode_gamma": lambda c: numpy.array(c.mode_gamma),
-    "p_static": lambda c: c.static_p_array, "strains": lambda c: c._full_modulus.get_axial_strains(),
-    "static": lambda c: numpy.array([c._full_modulus.get_static_modulus(k) for k in c.modulus_keys]),
-    "phonon_iso": lambda c: numpy.array([c._full_modulus._isothermal_phonon_contribution[k] for k in c.modulus_keys]),
-    "phonon_adi": lambda c: numpy.array([c._full_modulus._adiabatic_phonon_contribution[k] for k in c.modulus_keys]),
+    "p_static": lambda c: c.static_p_array, "strains": lambda c: full_modulus_of(c).get_axial_strains(),
+    "static": lambda c: numpy.array([full_modulus_of(c).get_static_modulus(k) for k in c.modulus_keys]),
+    "phonon_iso": lambda c: numpy.array([phonon_parts(c)[0][k] for k in c.modulus_keys]),
+    "phonon_adi": lambda c: numpy.array([phonon_parts(c)[1][k] for k in c.modulus_keys]),
     "modulus_iso": lambda c: numpy.array([c.modulus_isothermal[k] for k in c.modulus_keys]),
     "p_total": lambda c: c.qha_calculator.volume_base.pressures, "c_v": lambda c: c.qha_calculator.volume_base.heat_capacity,
 }
@@ -294,7 +294,9 @@ def taint(ctx, rng, datasets, prov, wd):
             changed = set()
             for q, f in OBS.items():
                 new = numpy.array(f(calc), dtype=float)
-                if new.shape != ref[q].shape or not numpy.allclose(new, ref[q], rtol=1e-10, atol=0, equal_nan=True):
+                # (the phonon parts are observed as reported modulus - reported static part: rounding of the subtraction is 1e-16 of the total)
+                atol = 1e-12 * float(numpy.nanmax(numpy.abs(ref["modulus_iso"]))) if q.startswith("phonon_") else 0.0
+                if new.shape != ref[q].shape or not numpy.allclose(new, ref[q], rtol=1e-10, atol=atol, equal_nan=True):
                     changed.add(q)
             illegal = {q for q in changed if q in prov and cls not in prov[q]}
             if illegal:
